@@ -117,6 +117,15 @@ async fn client(sh: Arc<Shared>, c: usize, spec: ClientSpec, slots: Slots) {
                 Some(other) => put_back(&slots, c, slot, other),
                 None => {}
             },
+            Op::StopTo { slot, ms } => match take_slot(&slots, c, slot) {
+                Some(Hdl::S(a, h)) => {
+                    // on expiry the stop future is dropped: the call guard records CallCancelled
+                    let _ = tokio::time::timeout(Duration::from_millis(ms), stop_via(&sh, ctx, a, &h)).await;
+                    put_back(&slots, c, slot, Hdl::S(a, h));
+                }
+                Some(other) => put_back(&slots, c, slot, other),
+                None => {}
+            },
             Op::Kill { slot } => match take_slot(&slots, c, slot) {
                 Some(Hdl::S(a, h)) => {
                     kill_via(&sh, ctx, a, &h);
